@@ -271,7 +271,7 @@ func newEnv(dir string) (*env, error) {
 	return &env{ctx: ctx, ws: ws, backend: be, cas: caching.NewCas(be)}, nil
 }
 
-var preStates = []string{"absent", "parent-absent", "same", "modified", "truncated", "extra-entries", "file-where-dir", "dir-where-file(lead)", "symlink-at-path(lead)", "exec-bit-flipped", "modified+exec-bit-flipped"}
+var preStates = []string{"absent", "parent-absent", "same", "modified", "truncated", "extra-entries", "file-where-dir", "dir-where-file(lead)", "symlink-at-path(lead)", "exec-bit-flipped", "modified+exec-bit-flipped", "entry-kinds-swapped"}
 
 type RestoreResult struct {
 	ID         int      `json:"id"`
@@ -354,6 +354,44 @@ func applyPreState(r *rnd, path, kind, pre string) {
 		if kind == "file" {
 			if fi, err := os.Stat(path); err == nil {
 				_ = os.Chmod(path, fi.Mode()^0111)
+			}
+		}
+	case "entry-kinds-swapped":
+		// the local copy of a directory output holds entries of another kind under the names of
+		// cached ones: a symlink or a directory where a regular file belongs, a regular file
+		// where a symlink or a directory belongs
+		if kind != "dir" {
+			return
+		}
+		var ents []string
+		_ = filepath.Walk(path, func(p string, fi os.FileInfo, err error) error {
+			if err == nil && p != path {
+				ents = append(ents, p)
+			}
+			return nil
+		})
+		outside := filepath.Join(filepath.Dir(path), "zz-link-target-"+r.word(3, 6))
+		for i := len(ents) - 1; i >= 0; i-- { // deepest first
+			p := ents[i]
+			fi, err := os.Lstat(p)
+			if err != nil || !r.chance(1, 2) {
+				continue
+			}
+			switch {
+			case fi.Mode().IsRegular():
+				_ = os.Remove(p)
+				if r.chance(1, 2) {
+					_ = os.WriteFile(outside, []byte("content of a file outside the output\n"), 0644)
+					_ = os.Symlink(outside, p)
+				} else {
+					_ = os.MkdirAll(filepath.Join(p, "was-a-file"), 0755)
+				}
+			case fi.Mode()&os.ModeSymlink != 0:
+				_ = os.Remove(p)
+				_ = os.WriteFile(p, []byte("was a link"), 0644)
+			case fi.IsDir():
+				_ = os.RemoveAll(p)
+				_ = os.WriteFile(p, []byte("was a directory"), 0644)
 			}
 		}
 	}
